@@ -236,6 +236,8 @@ def impl(line: str) -> str:
         return _psize_input(t)
     if op == "psize.weight":
         return _psize_weight(t)
+    if op == "size.block":
+        return common.call_impl(lambda: _size_block_impl(t), render=lambda v: v[3:])
     if op == "sigops.count":
         from btclib.script.sig_ops import sig_op_count
         return common.call_impl(lambda: sig_op_count(unhx(t[1])))
@@ -430,7 +432,7 @@ def _o_size_tx(w):
     return ok and back.size == tx.size and back.weight == tx.weight, d
 
 
-def _o_size_block(w):
+def _block_from(w):
     import random
     from btclib.block import Block
     rng = random.Random(w["seed"])
@@ -438,15 +440,42 @@ def _o_size_block(w):
     txs = [_rand_tx(rng, (1, 1, rng.choice([0, 72, 107]), 25, [1, 33] if rng.random() < 0.4 else None))
            for _ in range(w["n_tx"] - 1)]
     big = _rand_tx(rng, (w["n_in"], 2, 107, 25, [72, 33] if w["segwit"] else None))
-    blk = Block(base.header, [base.transactions[0], *txs[:w["n_tx"] - 1], big][:max(1, w["n_tx"])],
-                check_validity=False)
+    return Block(base.header, [base.transactions[0], *txs[:w["n_tx"] - 1], big][:max(1, w["n_tx"])],
+                 check_validity=False)
+
+
+def _o_size_block(w):
+    blk = _block_from(w)
     ok, d = _sizes_ok(blk, f"block n_tx={len(blk.transactions)}")
     hdr = 80
     from btclib import var_int
+    n = len(var_int.serialize(len(blk.transactions)))
     tx_sum = sum(t.size for t in blk.transactions)
-    ok = ok and blk.size == hdr + len(var_int.serialize(len(blk.transactions))) + tx_sum
+    ok = ok and blk.header._serialized_size() == hdr == len(blk.header.serialize(check_validity=False))
+    ok = ok and blk.size == hdr + n + tx_sum
     ok = ok and blk.stripped_size == len(blk.serialize(include_witness=False, check_validity=False))
+    # block_weight_is_sum on the real objects: the transactions' weights plus four times (header + count)
+    ok = ok and blk.weight == sum(t.weight for t in blk.transactions) + 4 * (hdr + n)
     return ok, d
+
+
+def _tx_parts(tx):
+    """the numbers `Tx._serialized_size` reads, taken from the real objects"""
+    return ":".join(str(int(v)) for v in (
+        tx.is_segwit, len(tx.vin), len(tx.vout), sum(i._serialized_size() for i in tx.vin),
+        sum(o._serialized_size() for o in tx.vout), sum(i.script_witness._serialized_size() for i in tx.vin)))
+
+
+def _size_block_line(w):
+    blk = _block_from(w)
+    return (f"size.block {w['seed']} {w['n_tx']} {w['n_in']} {int(w['segwit'])} {blk.header._serialized_size()} "
+            + ";".join(_tx_parts(t) for t in blk.transactions))
+
+
+def _size_block_impl(t):
+    blk = _block_from({"seed": int(t[1]), "n_tx": int(t[2]), "n_in": int(t[3]), "segwit": t[4] == "1"})
+    return (f"ok {blk.size} {blk.stripped_size} {blk.weight} {sum(x.weight for x in blk.transactions)} "
+            f"{blk.transactions[-1].size} {blk.transactions[-1].weight}")
 
 
 _B170 = []
@@ -639,6 +668,66 @@ def _o_estimate(w):
     return ok, (f"{[TEMPLATES[t] for t, _, _ in w['inputs']]} est={est_w} actual={actual} worst-case-sigs={worst} "
                 f"vsize {est_v}>={tx.vsize}")
 
+
+
+NUMS = "50929b74c1a04954b78b4b6035e97a5e078a5a0f28ec96d547bfee9ace803ac0"
+TAP_TEMPLATES = ["tr(@4,pk(@1))", f"tr({NUMS},pk(@1))", f"tr({NUMS},multi_a(2,@1,@2))", f"tr({NUMS},{{pk(@1),pk(@2)}})",
+                 f"tr({NUMS},{{pk(@1),multi_a(1,@2,@3)}})", "tr(@4,multi_a(1,@1))", f"tr({NUMS},multi_a(1,@2))",
+                 "tr(@4,{pk(@1),{pk(@2),pk(@3)}})"]
+
+
+def _o_estimate_tapleaf(w):
+    """taproot inputs that carry leaf scripts.  (1) without a sizer the estimate REFUSES (never a guess);
+    (2) the library signs every key it holds in every leaf (multi_a included) but finishes only the key path and a
+    lone single-key leaf: any other outcome than `finalized` / BTClibValueError, or a refusal where the model says
+    it finishes, fails; (3) where it finishes, the estimate with the sizer a caller who knows the solution writes
+    (signature, leaf script, control block -- all known BEFORE signing) is never below the signed weight, and a
+    sizer one byte short IS below it (the comparison is tight)."""
+    from btclib.psbt.psbt import extract_tx, finalize
+    from btclib.psbt.psbt_out import PsbtOut
+    from btclib.psbt_signer import request_signatures
+    S = _signer()
+    d = _descriptor(TAP_TEMPLATES[w["t"]])
+    k, sht = w["k"], w["sht"]
+    prev_tx = Tx(vin=[TxIn(OutPoint(bytes([7]) * 32, 0))], vout=[TxOut(100_000, d.script_pub_key(k))])
+    pin = PsbtIn(non_witness_utxo=prev_tx, previous_tx_id=prev_tx.id, output_index=0, sig_hash_type=sht or None)
+    outs = [PsbtOut(amount=1000 + j, script_pub_key=PAY.script) for j in range(w["n_out"])]
+    psbt = d.update_psbt_input(Psbt(2, [pin], outs, 0, {}, fallback_lock_time=0), 0, k)
+    leaves = dict(psbt.inputs[0].taproot_leaf_scripts)
+    if not leaves:
+        return False, "the updater wrote no leaf script"
+    try:
+        guess = psbt.estimated_weight
+        return False, f"{TAP_TEMPLATES[w['t']]}: an estimate ({guess}) without a sizer for an input carrying leaf scripts"
+    except Exception as e:  # noqa: BLE001
+        if common.err_class(e) != "value":
+            return False, f"estimate without sizer left through {type(e).__name__}"
+    signed = request_signatures(S["signer"], psbt)
+    sin = signed.inputs[0]
+    key_sig = sin.taproot_key_spend_signature or b""
+    ssigs = dict(sin.taproot_script_spend_signatures)
+    single = [(cb, sc) for cb, (sc, _v) in leaves.items() if len(sc) == 34 and sc[0] == 0x20 and sc[-1] == 0xAC]
+    lone = None
+    if not key_sig and len(ssigs) == 1:
+        (kd, _sg), = ssigs.items()
+        lone = next(((cb, sc) for cb, sc in single if sc[1:33] == kd[:32]), None)
+    finishes = bool(key_sig) or lone is not None
+    try:
+        tx = extract_tx(finalize(signed))
+    except Exception as e:  # noqa: BLE001
+        ok = common.err_class(e) == "value" and not finishes
+        return ok, (f"{TAP_TEMPLATES[w['t']]}: {len(ssigs)} script-path signatures over {len(leaves)} leaves "
+                    f"({sorted(len(sc) for sc, _ in leaves.values())} bytes), key sig {len(key_sig)}: finalize raised "
+                    f"{type(e).__name__}; model finishes: {finishes}")
+    if not finishes:
+        return False, f"{TAP_TEMPLATES[w['t']]}: finalized where the model refuses"
+    sig_size = 64 + (1 if sht else 0)
+    answer = [sig_size] if key_sig else [sig_size, len(lone[1]), len(lone[0])]
+    stack = [len(e) for e in tx.vin[0].script_witness.stack]
+    est = psbt.weight_estimate(lambda _pi, _ti: list(answer))
+    short = psbt.weight_estimate(lambda _pi, _ti: [answer[0] - 1, *answer[1:]])
+    ok = stack == answer and est >= tx.weight and -(-est // 4) >= tx.vsize and short < tx.weight
+    return ok, f"{TAP_TEMPLATES[w['t']]} sht={sht}: witness {stack}, sizer {answer}, est={est} actual={tx.weight} one-short={short}"
 
 
 def _o_amount_roundtrip(w):
@@ -960,6 +1049,7 @@ ORACLES = {
     "size.block": _o_size_block,
     "psbt.estimate": _o_estimate,
     "psbt.estimate_raw": _o_estimate_raw,
+    "psbt.estimate_tapleaf": _o_estimate_tapleaf,
     "amount.roundtrip": _o_amount_roundtrip,
     "amount.spelling": _o_amount_spelling,
     "amount.glue": _o_amount_glue,
@@ -1260,9 +1350,14 @@ def _run_sizes(ctx):
              "spk_len": rng.choice(edge + [10000, 10001, 65535, 65536]), "wit": wit}
         ctx.check("size.tx", w)
         ctx.count("size.tx.class", "segwit" if wit is not None else "legacy")
+    lines = []
     for _ in range(ctx.n(12, 120)):
-        ctx.check("size.block", {"seed": rng.getrandbits(32), "n_tx": rng.choice([1, 2, 3, 252, 253, 254, 300]),
-                                 "n_in": rng.choice([1, 252, 253]), "segwit": rng.random() < 0.6})
+        w = {"seed": rng.getrandbits(32), "n_tx": rng.choice([1, 2, 3, 252, 253, 254, 300]),
+             "n_in": rng.choice([1, 252, 253]), "segwit": rng.random() < 0.6}
+        ctx.check("size.block", w)
+        # the model's sums (translated Block._serialized_size / Tx._serialized_size over the parts) against the real block
+        lines.append(_size_block_line(w))
+    ctx.stream("size.block", lines)
 
 
 def _psize_line(rng, psbt_in, spk):
@@ -1415,6 +1510,9 @@ def _run_estimate(ctx):
         ins = [[rng.randrange(len(TEMPLATES)), rng.randrange(200), rng.choice([0, 0, 1])] for _ in range(n)]
         ctx.check("psbt.estimate", {"inputs": ins, "n_out": rng.choice([1, 2, 3])})
     # every shape × {compressed, uncompressed} alone, then mixes
+    for t in range(len(TAP_TEMPLATES)):
+        for sht in (0, 1) if t < 3 or ctx.tier != "quick" else (rng.choice([0, 1, 0x81]),):
+            ctx.check("psbt.estimate_tapleaf", {"t": t, "k": rng.randrange(40), "sht": sht, "n_out": rng.choice([1, 2])})
     for sh_i in range(len(RAW_SHAPES)):
         for comp in (1, 0):
             ctx.check("psbt.estimate_raw", {"inputs": [[sh_i, comp, rng.randrange(60)]], "n_out": 1})
